@@ -121,9 +121,13 @@ Definition d16_here (neg : bool) (x : expr) : bool :=
              existsb (fun m => is_nested (shake1 ord (shake_fuel m) m)) l
          | _ => false
          end.
+(* since fix D15/D20 an identifier body is optimised entry by entry: the group that holds the
+   entries stays, each entry is handed to the passes on its own (Optimiser.entries) *)
+Definition on_entries (f : expr -> expr) (e : expr) : expr :=
+  match e with EGroup s l => EGroup s (map f l) | _ => f e end.
 Definition shaken0 (st : expr * list (str * expr)) : expr * list (str * expr) :=
   (ok_or (shake0 (shake_fuel (fst st)) (fst st)) (fst st),
-   map (fun kv => (fst kv, ok_or (shake0 (shake_fuel (snd kv)) (snd kv)) (snd kv))) (snd st)).
+   map (fun kv => (fst kv, on_entries (fun x => ok_or (shake0 (shake_fuel x) x) x) (snd kv))) (snd st)).
 Definition has_match (e : expr) : bool :=
   exists_sub (fun _ x => match x with EMatch _ _ => true | _ => false end) false e.
 (* matrix applies shake_1 to the operand of every quantifier (optimiser.rs:384-393), so the
@@ -138,7 +142,7 @@ Definition pre_matrix (sw : switches) (dt : detection) : expr * list (str * expr
   let f := fun e =>
     let e1 := if sw_shake sw then ok_or (shake ord e) e else e in
     if sw_rewrite sw then rewrite o e1 else e1 in
-  (f (fst st), map (fun kv => (fst kv, f (snd kv))) (snd st)).
+  (f (fst st), map (fun kv => (fst kv, on_entries f (snd kv))) (snd st)).
 
 Definition matrix_fires (l : list expr) : bool :=
   existsb (fun kv => (1 <? snd kv)%nat && (snd kv <? 256)%nat) (count_fields l).
